@@ -89,7 +89,7 @@ def run_cases(mod, cases, stats, collect_cover=True):
     contracts.set_running(mod.PROPERTY)
     if collect_cover:
         cover.start()
-    out = {"n": 0, "violations": [], "fingerprints": [], "samples": [], "harness_errors": [], "timeouts": 0}
+    out = {"n": 0, "violations": [], "fingerprints": [], "samples": [], "harness_errors": [], "timeouts": 0, "kept_per_key": {}}
     signal.signal(signal.SIGALRM, _alarm)
     if hasattr(mod, "setup"):
         mod.setup(stats)
@@ -112,11 +112,15 @@ def run_cases(mod, cases, stats, collect_cover=True):
             contracts.end_case()
         out["n"] += 1
         # contract failures recorded while this case ran that the case itself did not turn into a verdict
+        # keep every distinct mechanism visible: violations are capped per key (known-finding floods must not
+        # crowd out a new violation), the totals are always counted
         for v in ctx.violations:
-            if len(out["violations"]) < 200:
+            k = v.get("key") or "<unclassified>"
+            kept = out["kept_per_key"].get(k, 0)
+            stats.count("violating_observations.%s" % k)
+            if kept < (300 if k == "<unclassified>" else 5):
                 out["violations"].append({"case": jsonable(case), **jsonable(v)})
-            else:
-                stats.count("violations_beyond_200_not_stored")
+                out["kept_per_key"][k] = kept + 1
         if ctx.is_nontrivial:
             out["fingerprints"].append(ctx.fingerprint)
         if ctx.sample_obj is not None and len(out["samples"]) < MAX_SAMPLES:
@@ -345,11 +349,11 @@ def parent_main(args):
 
     print("%s tier=%s seed=%d cases=%d distinct_nontrivial=%d wall=%.1fs workers=%d" % (prop, args.tier, args.seed, n, distinct, wall, jobs))
     for key, vs in knownhits.items():
-        print("KNOWN-FINDING: property=%s %s (%d observations this run; mechanism key %s)" % (prop, known[(prop, key)]["what"], len(vs), key))
+        print("KNOWN-FINDING: property=%s %s (%d observations this run; mechanism key %s)" % (prop, known[(prop, key)]["what"], stats.get("violating_observations.%s" % key), key))
     if new:
         for v in new[:MAX_REPLAYS]:
             print("  violation: %s" % v["reason"][:600])
-        print("  (%d violating observations in total)" % len(new))
+        print("  (%d violating observations in total)" % stats.get("violating_observations.<unclassified>"))
         for pth in replay_paths[:1]:
             print("VIOLATION property=%s replay=%s" % (prop, pth))
         return 1
